@@ -173,6 +173,28 @@ def part_sem(args, out):
         del e, f
         gc.collect()
         res["released"] = True
+    elif hist in ("initmain-killed", "initmain-broken"):
+        # workers that re-import the main module (loky_init_main) and create a lock while doing
+        # so (VF_IMPORT_TIME_LOCK is set by the judge); they end by kill_workers / a crash
+        ctx = get_context("loky_init_main")
+        e = ProcessPoolExecutor(2, context=ctx, timeout=30)
+        res["r"] = [e.submit(nap, i).result(timeout=30) for i in range(4)]
+        res["pids"] += list(e._processes)
+        if hist == "initmain-killed":
+            e.shutdown(wait=True, kill_workers=True)
+        else:
+            f = e.submit(crash, 1)
+            try:
+                f.result(timeout=20)
+            except BaseException as ex:     # noqa
+                res["broken"] = type(ex).__name__
+            e.shutdown(wait=True)
+            del f
+        del e
+        gc.collect()
+        # the killed workers' own locks are not "properly released": a leak report about them
+        # is legitimate, the namespace must still be restored
+        res["released"] = False
     elif hist == "collision":
         # creations that collide with the name of a living semaphore of this very process: an
         # explicit name given twice, and the retry loop of SemLock.__init__ drawing a taken name
